@@ -14,6 +14,13 @@ codegen / import machinery:
       standard library decides decodable / undecodable; undecodable input must
       raise CompileException, decodable input must behave as its decoded text.
 
+  (C) "seq": every ordered pair of distinct output configurations (encoding x
+      error policy) rendered first / second in a pristine process: state kept
+      between renders must not leak from one configuration into the next.
+
+A failure seen in a long-lived worker is reported together with the earlier
+case it needs (core.find_prelude), so that it replays in a fresh interpreter.
+
 Oracles are independent of mako: the expected text is bytes.decode() of the
 standard library under the codec the *statement* makes effective (comment >
 input_encoding > UTF-8; BOM = UTF-8 and must not be contradicted), the expected
@@ -57,7 +64,11 @@ LEVEL_TEXT = (
     "thorough also TemplateLookup) x 5 / 6 output configurations is compiled and rendered by the real code (quick: the three "
     "error-handler outputs are crossed with the bytes and module-directory paths only); and every single byte >= 0x80 "
     "(thorough: every two-byte sequence with a high lead byte, UTF-8 3/4-byte boundary sequences) of every codec is fed "
-    "through three frames and two paths.  Complete within those bounds; no sampling."
+    "through three frames and two paths (a fourth frame puts the bytes first in the template, directly behind the BOM).  "
+    "The BOM codec additionally gets, under every BOM declaration style, templates whose first character is U+FF21, U+FEFF, "
+    "U+FFFB, U+F000 (UTF-8 lead byte EF like the BOM) or U+EFFF.  Every ordered pair of distinct output configurations "
+    "(2 encodings x 4 error policies, thorough 4 x 7) is rendered first/second in a pristine process.  Complete within "
+    "those bounds; no sampling."
 )
 LEVEL_NOTE = (
     "Trusted: CPython codecs (bytes.decode / str.encode / codecs.lookup), tokenize.detect_encoding, the import system, the "
@@ -68,7 +79,7 @@ RULE = (
     "grid: one state per distinct (source bytes, input_encoding, path, output_encoding, encoding_errors); source bytes = "
     "[BOM] + [coding comment line] + carrier(L) encoded in the codec, L ranging over every string of <=k characters of the "
     "codec's repertoire (identical byte strings reached from different codecs are counted once).  neg: one state per "
-    "(codec, declaration, byte sequence, frame, path).  Non-trivial = the source bytes contain a byte >= 0x80 or a BOM, or "
+    "(codec, declaration, byte sequence, frame, path).  seq: one state per ordered pair of output configurations.  Non-trivial = the source bytes contain a byte >= 0x80 or a BOM, or "
     "the two declarations conflict (i.e. the decoding decision is observable)."
 )
 ASSUMPTIONS = [
@@ -80,20 +91,26 @@ ASSUMPTIONS = [
     "module file: only 'bytes decode with the codec named in the file's own coding comment to the in-memory module text' is demanded, not which codec mako chooses",
     "the fresh-process path is executed in batches (one child interpreter per <=400 source cases); the child only opens existing module files (inode must be unchanged)",
     "the correctness of the 'htmlentityreplace' error handler itself is not judged here (C10); occurrences of the b'...' artefact are counted in the evidence",
+    "order dependence: workers are long-lived; a failing cell is re-run in a fresh interpreter alone and after the first cell that used each other output configuration / a few recent cells (core.find_prelude); a fresh-process (newproc) failure that disappears when its entry is run in a child of its own is an artefact of batching and only counted",
+    "sequence family: the first render of a pristine process and the second one after a different output configuration; longer histories are not enumerated",
     "CPython codecs, tokenize and import are trusted; characters are drawn from pools of interchangeable values by VERIF_SEED",
 ]
 BOUNDS = {
     "quick": {
-        "codecs": 11, "repertoire": 4, "max_chars": 2, "strings": 20, "carriers": 3, "declarations": "6 (+6 BOM variants)",
+        "codecs": 11, "repertoire": 4, "max_chars": 2, "strings": 20, "carriers": "3 (+ 'lead' for utf-8+BOM)", "declarations": "6 (+6 BOM variants)",
         "paths": "bytes,file,mod,reopen,newproc for outputs (None),(same codec,strict); bytes,mod for the 3 error-handler outputs",
-        "outputs": 5, "neg": "all single bytes >=0x80 x 3 frames x 2 paths x {comment,input_encoding[,none]}",
+        "outputs": 5, "neg": "all single bytes >=0x80 x 3 frames (4 for utf-8 and utf-8+BOM: also first-in-template) x 2 paths x {comment,input_encoding[,none]}",
+        "bom_lead": "carrier 'lead' x all 12 BOM declaration styles x 20 strings starting with U+FF21/U+FEFF/U+FFFB/U+F000/U+EFFF (+6 ordinary)",
+        "seq": "ordered pairs of distinct (encoding, policy) over {ascii, latin-1} x {strict, replace, xmlcharrefreplace, htmlentityreplace}: 56",
     },
     "thorough": {
         "codecs": 11, "repertoire": 5, "max_chars": 3,
         "strings": "94 (<=3 over 4 chars + <=2 over 5 chars) for the ten general declaration styles, 30 (<=2 over 5 chars) for the 17 BOM-specific variants",
-        "carriers": 7, "declarations": "10 (+17 BOM variants)",
+        "carriers": 8, "declarations": "10 (+17 BOM variants)",
         "paths": "bytes,file,mod,reopen,newproc,lookup", "outputs": 6,
-        "neg": "single bytes as quick + all two-byte sequences with lead >=0x80 (frame mid, comment) + UTF-8 3/4-byte boundary sequences",
+        "neg": "single bytes as quick (4 frames for all codecs) + all two-byte sequences with lead >=0x80 (frame mid, comment) + UTF-8 3/4-byte boundary sequences, the 3-byte ones also directly behind the BOM",
+        "bom_lead": "carrier 'lead' for every codec; for utf-8+BOM additionally all 27 declaration styles x 20 special-first-character strings",
+        "seq": "ordered pairs over {ascii, latin-1, cp1252, shift_jis} x {strict, replace, xmlcharrefreplace, htmlentityreplace, ignore, backslashreplace, namereplace}: 756",
     },
 }
 READY = True
@@ -325,6 +342,8 @@ class Env:
         self.search = False  # worker mode: look for the earlier case an order-dependent failure needs
         self.recent = collections.deque(maxlen=50)  # the last cells this process executed (case dicts)
         self.reported = set()  # base signatures already written out by this worker
+        self.firstuse = {}  # (output_encoding, encoding_errors) -> the first cell this process rendered with it
+        self.found = []  # preludes that explained an earlier failure of this worker (tried first)
         self.fresh()
 
     def fresh(self):
@@ -475,7 +494,16 @@ def report(st, env, sig, case, oracle, expected=None, observed=None):
         st.sigcount[key] += 1
         return
     env.reported.add(sig)
-    prelude = core.find_prelude("mc.props.c18", case, list(env.recent), max_tries=12)
+    # candidates, least promising first (find_prelude walks the list backwards): a few recent cells, the first cell
+    # rendered with each other output configuration, those with the same output encoding, preludes found before
+    out = tuple(case.get("out") or ())
+    cand = list(env.recent)[-3:]
+    cand += [c for k, c in env.firstuse.items() if k != out and k[0] != (out[0] if out else None)]
+    cand += [c for k, c in env.firstuse.items() if k != out and k[0] == (out[0] if out else None)]
+    cand += env.found
+    prelude = core.find_prelude("mc.props.c18", case, cand, max_tries=10)
+    if prelude and prelude[0] not in env.found:
+        env.found.append(prelude[0])
     if prelude:
         case = dict(case, prelude=prelude)
         sig = sig + ORDER_SUFFIX
@@ -524,7 +552,10 @@ class Judge:
             dc = "none"
         else:
             dc = "declared"
-        if oracle == "outcome" and d.startswith("bom"):
+        if oracle in ("render_type", "render_encode", "def_template", "render_unicode_type", "render_unicode_varies"):
+            # output side: the declaration style plays no part
+            sig = "%s|path=%s|%s" % (oracle, _pathclass(path), detail)
+        elif oracle == "outcome" and d.startswith("bom"):
             # decided while decoding, before any path-specific code runs: one footprint for all paths
             sig = "%s|decl=%s|%s" % (oracle, dc, detail)
         else:
@@ -784,7 +815,10 @@ def run_source_case(codec, decl, carrier, L, outs, paths, env, st, seen=None, li
             oc = jd.judge(path, out, obs, alt_refs)
             st.outcomes[(path, _declclass(declname), exp[0], oc)] += 1
             if env.search:
-                env.recent.append(dict(case_base, path=path, out=list(out)))
+                cell = dict(case_base, path=path, out=list(out))
+                env.recent.append(cell)
+                if out[0] is not None and tuple(out) not in env.firstuse:
+                    env.firstuse[tuple(out)] = cell
             if "u" in obs and exp[0] == "ok":
                 us[(path, out)] = obs["u"]
     # render_unicode() ignores output_encoding: identical for every output configuration of a path
